@@ -5,6 +5,7 @@ use serde_json::Value;
 pub mod c07;
 pub mod ll;
 pub mod llrun;
+pub mod lrrun;
 pub mod wf;
 pub mod xform;
 
@@ -15,6 +16,7 @@ pub fn replay_fn(kind: &str) -> Result<fn(&Value) -> Outcome> {
         "c06" => ll::replay_c06,
         "llrun" => llrun::replay,
         "c07" => c07::replay,
+        "lrrun" => lrrun::replay,
         "xform" => xform::replay,
         _ => bail!("unknown replay kind {kind}"),
     })
